@@ -7,7 +7,7 @@ from typing import Dict, List, Optional, Set, Tuple
 
 from .. import flow
 from ..chains import Branch, chain_of, extract_chains, is_chain_head, parse_test
-from ..core import (AnalysisError, ClassInfo, Module, Repo, arg_or_kw, call_attr, call_name, calls_in, dotted,
+from ..core import (AnalysisError, ClassInfo, Module, Repo, arg_or_kw, call_attr, call_name, calls_in, dotted, parent,
                     func_params, get_kw, norm, qualname, short)
 from ..report import Ctx
 
@@ -106,9 +106,9 @@ def flat_chain(repo: Repo, m: Module, fn: ast.FunctionDef, subject: str) -> List
                     if parse_test(repo, m, body[0].test, probe) and probe.subject == subject:
                         add(body[0])
                         return
-                out.append(Branch(None, body, node))
+                out.append(Branch(None, body, node, module=m))
             else:
-                b = Branch(test, body, node)
+                b = Branch(test, body, node, module=m)
                 b.parsed = parse_test(repo, m, test, b)
                 if not b.parsed or b.subject != subject:
                     raise AnalysisError(
@@ -119,11 +119,30 @@ def flat_chain(repo: Repo, m: Module, fn: ast.FunctionDef, subject: str) -> List
     return out
 
 
+def specialise(repo: Repo, m: Module, body: List[ast.stmt], subject: Optional[str], cls: ClassInfo) -> List[ast.stmt]:
+    """`body` as executed for an operation of class `cls`: nested `if` tests that classify the same subject by class are decided
+    (a branch shared by several classes often ends with `if type(op) is X: <extra step>`)."""
+    out: List[ast.stmt] = []
+    for st in body:
+        if isinstance(st, ast.If) and subject is not None:
+            probe = Branch(st.test, st.body, st)
+            if parse_test(repo, m, st.test, probe) and probe.subject == subject and (probe.exact or probe.closure):
+                arm = st.body if cls.key in probe.classes(repo) else st.orelse
+                out += specialise(repo, m, arm, subject, cls)
+                continue
+        out.append(st)
+    return out
+
+
 def reach(repo: Repo, chain: List[Branch], cls: ClassInfo) -> Optional[Branch]:
     for b in chain:
-        if b.test is None:
-            return b
-        if cls.key in b.classes(repo):
+        if b.test is None or cls.key in b.classes(repo):
+            if b.module is not None:
+                subj = next((x.subject for x in chain if x.subject), None)
+                body = specialise(repo, b.module, b.body, subj, cls)
+                if len(body) != len(b.body) or any(x is not y for x, y in zip(body, b.body)):
+                    nb = Branch(b.test, body, b.node, b.subject, set(b.exact), set(b.closure), set(b.literals), b.parsed, b.module)
+                    return nb
             return b
     return None
 
@@ -397,10 +416,23 @@ def rule_reset(ctx: Ctx, rel: str, cname: str, chain: List[Branch], names: Dict[
         return
     qn, on = names["q_index"], names["op"]
 
+    # local names bound to q_index(op.control, op.control_type) anywhere in the hook
+    fn_ = b.node
+    while fn_ is not None and not isinstance(fn_, ast.FunctionDef):
+        fn_ = parent(fn_)
+    ctrl_names: Set[str] = set()
+    if fn_ is not None:
+        for a_ in ast.walk(fn_):
+            if isinstance(a_, ast.Assign) and len(a_.targets) == 1 and isinstance(a_.targets[0], ast.Name) and isinstance(a_.value, ast.Call) \
+                    and isinstance(a_.value.func, ast.Name) and a_.value.func.id == qn and qindex_role(a_.value, on) == ("control", "control_type"):
+                ctrl_names.add(a_.targets[0].id)
+
     def on_control(call: ast.Call) -> bool:
         for a in list(call.args) + [k.value for k in call.keywords]:
             if isinstance(a, ast.Call) and isinstance(a.func, ast.Name) and a.func.id == qn \
                     and qindex_role(a, on) == ("control", "control_type"):
+                return True
+            if isinstance(a, ast.Name) and a.id in ctrl_names:
                 return True
         return False
 
@@ -418,7 +450,7 @@ def rule_reset(ctx: Ctx, rel: str, cname: str, chain: List[Branch], names: Dict[
             a = call_attr(c)
             if a in MEASURE_CALLS:
                 s = max(s, 1)
-            if s >= 1 and a == "reset_qubit" and on_control(c):
+            if s >= 1 and a == "reset_qubit" and on_control(c) and isinstance(c.func, ast.Attribute) and norm(c.func.value) == names.get("state", "state"):
                 s = 2
             if s >= 1 and a == "apply_channel" and c.args and isinstance(c.args[0], ast.Name) and c.args[0].id in kraus_vars:
                 s = 2
@@ -429,6 +461,14 @@ def rule_reset(ctx: Ctx, rel: str, cname: str, chain: List[Branch], names: Dict[
     if ends and ends <= {2}:
         ctx.ok_abstract("sibling.reset", f"{cname}: branch reached by {mcr.name} measures then resets the control qubit on every path")
     else:
+        foreign = [c for st in b.body for c in calls_in(st) if "reset" in (call_attr(c) or call_name(c) or "").lower()
+                   and not (call_attr(c) in ("reset_qubit", "get_reset_qubit_kraus"))
+                   or ("reset" in (call_name(c) or "").lower() and isinstance(c.func, ast.Attribute) and norm(c.func.value) != names.get("state", "state")
+                       and call_attr(c) == "reset_qubit")]
+        if foreign:
+            raise AnalysisError(f"{cname}.compile_one_gate: the branch reached by {mcr.name} resets through `{short(foreign[0], 60)}`, which is not one of the "
+                                f"reset primitives this checker trusts (state.reset_qubit / the reset Kraus channel): its effect on the other qubits is "
+                                f"not decided")
         ctx.fail("sibling.reset", m, b.node,
                  f"the branch of {cname}.compile_one_gate reached by {mcr.name} does not, on every path, apply the "
                  f"backend's reset primitive to q_index(op.control, op.control_type) after the measurement",
@@ -447,8 +487,10 @@ def rule_determinism(ctx: Ctx, rel: str, cname: str, hooks: List[str]):
     m = repo.module(rel)
     for hook in hooks:
         fn = repo.anchor(rel, f"{cname}.{hook}")
+        state_names = {p_ for p_ in func_params(fn) if p_ == "state"} or {"state"}
         for c in calls_in(fn):
-            if call_attr(c) in DET_CALLS:
+            # methods of the state representation only (a module-level helper that happens to share a name is not one of them)
+            if call_attr(c) in DET_CALLS and isinstance(c.func, ast.Attribute) and norm(c.func.value) in state_names:
                 v = get_kw(c, "measurement_determinism")
                 if v is None:
                     params = _callee_params(repo, m, c)
